@@ -281,8 +281,9 @@ def pick_quick(keys, by_key, rnd, n=36):
         # an own RPC whose name is NOT a configured mixin RPC (rules for Set/Get only, own TestIamPermissions) ...
         find(lambda c: len(c['apis']) == 3 and c['own'] == ['TestIamPermissions'] and c['rulecode']['SetIamPolicy'] and
              c['rulecode']['GetIamPolicy'] and not c['rulecode']['TestIamPermissions']),
-        # ... and one whose name is (rules for all, own SetIamPolicy)
-        find(lambda c: len(c['apis']) == 3 and full(c, 1) and c['own'] == ['SetIamPolicy']),
+        # ... and own RPCs that cover every configured IAM RPC (rules for Set/Get only, own Set + Get)
+        find(lambda c: len(c['apis']) == 3 and sorted(c['own']) == ['GetIamPolicy', 'SetIamPolicy'] and c['rulecode']['SetIamPolicy'] and
+             c['rulecode']['GetIamPolicy'] and not c['rulecode']['TestIamPermissions']),
         # additional bindings that sort before / after the primary one
         find(lambda c: len(c['apis']) == 3 and allv(c, 1) and c['addl'] == 'before' and not c['own'] and not c['legacy']
              and c['transports'] == ['grpc', 'rest']),
@@ -326,6 +327,20 @@ def main(chk, args):
     chk.add_tlc(r2, 'Mixins case emission')
     if not cases:
         raise core.MachineryError('no cases emitted')
+    # "IAM mixins yield to same-named RPCs defined by the API itself" admits two readings when the API declares SOME of the
+    # configured IAM RPCs: the whole IAM mixin yields (what the code does, GroupYield in Mixins.tla) or only the same-named
+    # RPCs do.  Configurations on which the two readings differ are not replayed - an implementation following the other
+    # reading satisfies the property and must not raise an alarm.  (Same-named RPCs yield and own RPCs win in every replayed
+    # configuration; own RPCs with other IAM names withdraw nothing.)
+    IAM3 = ('SetIamPolicy', 'GetIamPolicy', 'TestIamPermissions')
+
+    def readings_differ(c):
+        configured = {m for m in IAM3 if 'IAM' in ''.join(c['apis']).upper() and c['rulecode'].get(m)}
+        own = set(c['own'])
+        return bool(own & configured) and not configured <= own
+    nbefore = len(cases)
+    cases = [c for c in cases if not readings_differ(c)]
+    chk.extra['configurations_skipped_two_readings'] = nbefore - len(cases)
     by_key = {}
     for c in cases:
         by_key.setdefault(cfg_key(c), []).append(c)
